@@ -36,17 +36,17 @@ func refLines(body []byte) [][]byte {
 
 // Case is one request.
 type Case struct {
-	Kind   string `json:"kind"`          // generator class
-	Body   []byte `json:"-"`             // logical (decompressed) body
-	Wire   []byte `json:"-"`             // bytes put on the wire (== Body unless Gzip)
-	Gzip   bool   `json:"gzip"`          // Content-Encoding: gzip
-	GzHow  string `json:"gz_how,omitempty"` // how Wire was produced
-	ES     bool   `json:"es"`            // emulate_mode elasticsearch, POST /_bulk
-	Chunks []int  `json:"-"`             // planned sizes of successive reads of Wire (0 = empty read, nil error)
-	EOFWithLast bool `json:"eof_with_last"` // the read that delivers the last byte also returns io.EOF
-	ErrAfter    int  `json:"err_after"`     // >=0: after this many wire bytes the reader fails with a non-EOF error
-	Truncated   bool `json:"truncated"`     // Wire is a cut gzip stream (Body holds the full plaintext)
-	Net         bool `json:"net"`           // delivered over a loopback TCP connection, chunked transfer encoding
+	Kind        string `json:"kind"`             // generator class
+	Body        []byte `json:"-"`                // logical (decompressed) body
+	Wire        []byte `json:"-"`                // bytes put on the wire (== Body unless Gzip)
+	Gzip        bool   `json:"gzip"`             // Content-Encoding: gzip
+	GzHow       string `json:"gz_how,omitempty"` // how Wire was produced
+	ES          bool   `json:"es"`               // emulate_mode elasticsearch, POST /_bulk
+	Chunks      []int  `json:"-"`                // planned sizes of successive reads of Wire (0 = empty read, nil error)
+	EOFWithLast bool   `json:"eof_with_last"`    // the read that delivers the last byte also returns io.EOF
+	ErrAfter    int    `json:"err_after"`        // >=0: after this many wire bytes the reader fails with a non-EOF error
+	Truncated   bool   `json:"truncated"`        // Wire is a cut gzip stream (Body holds the full plaintext)
+	Net         bool   `json:"net"`              // delivered over a loopback TCP connection, chunked transfer encoding
 }
 
 // Clean: a well-formed, completely delivered body.
@@ -182,6 +182,9 @@ func lineContext(c *Case, reads []int, idx int) string {
 	if c.Gzip || c.Net {
 		return "reads-not-controlled(gzip/tcp)"
 	}
+	if idx >= len(refLines(c.Body)) {
+		return "after-last-line"
+	}
 	// byte range of line idx in body
 	start, k := 0, 0
 	for i := 0; i < len(c.Body) && k < idx; i++ {
@@ -203,7 +206,6 @@ func lineContext(c *Case, reads []int, idx int) string {
 	off := 0
 	spans := false
 	nlFirst := false
-	startsAtRead := start == 0
 	for _, r := range reads {
 		off += r
 		if off > start && off <= end && !(off == end && unterminated) {
@@ -212,9 +214,6 @@ func lineContext(c *Case, reads []int, idx int) string {
 			} else {
 				spans = true
 			}
-		}
-		if off == start {
-			startsAtRead = true
 		}
 	}
 	switch {
@@ -225,7 +224,6 @@ func lineContext(c *Case, reads []int, idx int) string {
 	default:
 		ctx = append(ctx, "inside-one-read")
 	}
-	_ = startsAtRead
 	if unterminated {
 		ctx = append(ctx, "final-unterminated")
 	}
